@@ -47,6 +47,15 @@ class Ctx:
         return r
 
 
+    def proof(self, module):
+        r = core.proof(self.scratch, module)
+        self.cov.setdefault("design_proofs_tlaps", []).append(r)
+        if not r["proved"]:
+            self.notes.append("NOTE design proof %s not re-established by tlapm (%s): advisory, about the specification only" % (module, r.get("detail")))
+            print("NOTE proof: %s not re-established (advisory; no verdict depends on it)" % module, flush=True)
+        return r
+
+
 class TraceJob:
     """A recorded trace (possibly big) to validate with one trace module under the property's lens.
     replay(ctx, scenario_path, out_path) re-executes the inputs of the saved scenario lines."""
